@@ -27,6 +27,10 @@ type c08Scn struct {
 	PostW   int       `json:"postw,omitempty"`   // writes attempted after the call
 	F       [][3]int  `json:"f"`                 // faults over the first 8 packets per direction sent after the call
 	CtxMs   int       `json:"ctxms,omitempty"`   // the caller's context expires after this many ms (0: never)
+	// PeerPR > 0: at the instant of the call the peer writes this many messages on a partially
+	// reliable stream (no retransmission): lost ones are abandoned and have to be skipped with a
+	// FORWARD-TSN that the caller receives while it is already shutting down
+	PeerPR int `json:"peerpr,omitempty"`
 }
 
 func (x c08Scn) e1() vfE1 {
@@ -83,6 +87,9 @@ func genC08(rt *rapid.T) c08Scn {
 		x.CrossUs = rapid.SampledFrom([]int{0, 1, 5000, 10137, 15000, 20274, 30000}).Draw(rt, "crossus")
 	}
 	x.PostW = rapid.IntRange(0, 2).Draw(rt, "postw")
+	if rapid.IntRange(0, 3).Draw(rt, "peerpr") == 0 {
+		x.PeerPR = rapid.IntRange(1, 4).Draw(rt, "npeerpr")
+	}
 	if rapid.IntRange(0, 3).Draw(rt, "ctx") == 0 {
 		x.CtxMs = rapid.SampledFrom([]int{1, 15, 30, 300, 3000}).Draw(rt, "ctxms")
 	}
@@ -124,6 +131,15 @@ func runC08(t *testing.T, x c08Scn, verbose bool) vfCase {
 			s.mu.Unlock()
 			outstandingAtCall = s.as[x.Caller].BufferedAmount()
 			a := s.as[x.Caller]
+			if x.PeerPR > 0 {
+				if h, err := s.stream(1-x.Caller, 7, PayloadTypeWebRTCBinary); err == nil {
+					h.s.SetReliabilityParams(true, ReliabilityTypeRexmit, 0)
+					for i := 0; i < x.PeerPR; i++ {
+						_, _ = h.s.WriteSCTP(vfPayload(700+i, 300), PayloadTypeWebRTCBinary)
+					}
+					c.class("peer-partially-reliable-data")
+				}
+			}
 			callAt := s.net.now()
 			calls[x.Caller] = s.spawn("shutdown", x.Caller, func() error {
 				if x.CtxMs > 0 {
